@@ -11,9 +11,39 @@ from prov.model import ProvDocument
 from .. import alphabets, explore, machine, observe, spec, sweeps
 
 
+EDIT_NS = ("edt", "http://edited.example/ns#")
+
+
+def edit_in_place(doc):
+    """edits of a document that has been written already: through the editor that bypasses add_attributes
+    (set_time: a new end time, a replaced start time), through add_attributes (an attribute in a namespace the
+    document has not seen), and a new record"""
+    import datetime
+    from prov.identifier import Namespace
+    ns = Namespace(*EDIT_NS)
+    recs = list(doc.get_records()) + [r for b in doc.bundles for r in b.get_records()]
+    for a in recs:
+        if a.get_type().uri == machine.PROV_URI + "Activity":
+            if a.get_endTime() is None:
+                a.set_time(endTime=datetime.datetime(2031, 1, 2, 3, 4, 5))
+            if a.get_startTime() is not None:
+                a.set_time(startTime=datetime.datetime(2030, 6, 7, 8, 9, 10))
+            break
+    for r in recs:
+        if r.get_type().uri not in NO_EXTRA_ATTRS:
+            r.add_attributes([(ns["k"], "edited")])
+            break
+    (list(doc.bundles)[-1] if doc.bundles else doc).entity(ns["added"])
+
+
+# relation kinds whose PROV-N / PROV-XML forms take no further attributes
+NO_EXTRA_ATTRS = {machine.PROV_URI + k for k in ("Alternate", "Specialization", "Membership", "Mention")}
+
+
 class C01(spec.Spec):
     prop = "C01"
     fmt = "json"
+    mutating_checks = True  # judge() edits the document after it has been written
 
     def __init__(self, tier, params=None):
         super().__init__(tier, params)
@@ -26,15 +56,47 @@ class C01(spec.Spec):
         text = doc.serialize(format=self.fmt, **opts)
         return text, ProvDocument.deserialize(content=text, format=self.fmt)
 
+    def judge_after_edit(self, doc, out, hist, where, o, extra):
+        """write -> edit in place -> write again, both times through ONE serializer object: the second text
+        is the text of the edited document"""
+        import io
+        import prov.serializers
+        try:
+            ser = prov.serializers.get(self.fmt)(doc)
+            ser.serialize(io.BytesIO(), **o)
+            edit_in_place(doc)
+            want = observe.dobs(doc)
+            buf = io.BytesIO()
+            ser.serialize(buf, **o)
+            text = buf.getvalue().decode("utf-8")
+            fresh = doc.serialize(format=self.fmt, **o)
+            d2 = ProvDocument.deserialize(content=text, format=self.fmt)
+        except Exception as e:
+            out.violation("%s-second-write-after-edit-raises" % self.fmt, type(e).__name__,
+                          {"error": "%s: %s" % (type(e).__name__, e), "options": o, "where": where}, hist, extra)
+            return
+        got = observe.dobs(d2)
+        if got != want:
+            out.violation("%s-stale-after-in-place-edit" % self.fmt, ",".join(observe.classify_diff(want, got)),
+                          {"diff": observe.diff_obs(want, got), "options": o, "where": where, "text": text[:3000]},
+                          hist, extra)
+        elif text != fresh:
+            out.violation("%s-serializer-object-reused-gives-other-text" % self.fmt, "after-edit",
+                          {"options": o, "where": where, "reused": text[:1500], "fresh": fresh[:1500]}, hist, extra)
+        else:
+            out.outcomes["equal-after-edit"] += 1
+
     def judge(self, doc, out, hist, where, opts=None, extra=None):
         want = observe.dobs(doc)
         observe.touch(doc)
+        all_equal = True
         for o in (self.option_sets if opts is None else opts):
             observe.export_decoy(self.fmt, **o)
             try:
                 text, d2 = self.roundtrip(doc, o)
             except Exception as e:
                 out.outcomes["exception"] += 1
+                all_equal = False
                 out.violation("%s-roundtrip-exception" % self.fmt, type(e).__name__ + observe.input_class(doc),
                               {"error": "%s: %s" % (type(e).__name__, e), "options": o, "where": where},
                               hist, extra)
@@ -44,11 +106,14 @@ class C01(spec.Spec):
                 out.outcomes["equal"] += 1
             else:
                 out.outcomes["different"] += 1
+                all_equal = False
                 kinds = observe.classify_diff(want, got)
                 out.violation("%s-roundtrip-content" % self.fmt, ",".join(kinds) + observe.input_class(doc),
                               {"diff": observe.diff_obs(want, got), "options": o, "where": where,
                                "text": text if len(text) < 3000 else text[:3000] + "..."},
                               hist, extra)
+        if all_equal:
+            self.judge_after_edit(doc, out, hist, where, o, extra)
 
     def check_state(self, st, out):
         # builder conformance against the reference model
